@@ -376,7 +376,10 @@ func (m *lfsModule) handleHTTPProduce(w http.ResponseWriter, r *http.Request) {
 	}
 	defer func() { _ = backendConn.Close() }()
 
-	_, err = m.forwardToBackend(r.Context(), backendConn, payload)
+	respBytes, err := m.forwardToBackend(r.Context(), backendConn, payload)
+	if err == nil {
+		err = lfsProduceAcked(respBytes, reqHeader.APIVersion)
+	}
 	if err != nil {
 		m.metrics.IncRequests(topic, "error", "lfs")
 		m.trackOrphans([]orphanInfo{{Topic: topic, Key: objectKey, RequestID: requestID, Reason: "kafka_produce_failed"}})
@@ -976,8 +979,16 @@ func (m *lfsModule) handleHTTPUploadComplete(w http.ResponseWriter, r *http.Requ
 		return
 	}
 
+	if int64(len(req.Parts)) != int64(session.NextPart)-1 {
+		m.lfsWriteHTTPError(w, requestID, session.Topic, http.StatusBadRequest, "invalid_part", "parts list must name every uploaded part exactly once")
+		return
+	}
 	completed := make([]types.CompletedPart, 0, len(req.Parts))
-	for _, part := range req.Parts {
+	for i, part := range req.Parts {
+		if int64(part.PartNumber) != int64(i)+1 {
+			m.lfsWriteHTTPError(w, requestID, session.Topic, http.StatusBadRequest, "invalid_part", "parts must be listed in order, each exactly once")
+			return
+		}
 		etag, ok := session.Parts[part.PartNumber]
 		if !ok || etag == "" || part.ETag == "" || etag != part.ETag {
 			m.lfsWriteHTTPError(w, requestID, session.Topic, http.StatusBadRequest, "invalid_part", "part etag mismatch")
@@ -1067,7 +1078,11 @@ func (m *lfsModule) handleHTTPUploadComplete(w http.ResponseWriter, r *http.Requ
 	}
 	defer func() { _ = backendConn.Close() }()
 
-	if _, err := m.forwardToBackend(r.Context(), backendConn, payload); err != nil {
+	respBytes, err := m.forwardToBackend(r.Context(), backendConn, payload)
+	if err == nil {
+		err = lfsProduceAcked(respBytes, reqHeader.APIVersion)
+	}
+	if err != nil {
 		m.trackOrphans([]orphanInfo{{Topic: session.Topic, Key: session.S3Key, RequestID: requestID, Reason: "kafka_produce_failed"}})
 		m.tracker.EmitUploadFailed(requestID, session.Topic, session.S3Key, "backend_error", err.Error(), "kafka_produce", session.TotalUploaded, 0)
 		m.lfsWriteHTTPError(w, requestID, session.Topic, http.StatusBadGateway, "backend_error", err.Error())
